@@ -8,6 +8,7 @@ map-model     an abstract .map file (1-3 [ molecule ] entries; [ from ] / [ to ]
               collection is compared with the expectation: exactly the (origin, target, molecule) triples for which both
               force fields have the block, weights = multiplicity / number of non-'!' targets written for that atom, 0 for '!'.
 map-faults    one fault injected into a valid file; the loader must raise.
+map-directory    a generated .map file and a generated .mapping file in a directory tree, read with read_mapping_directory.
 map-doc-example  the literal example of doc/source/file_formats.rst.
 map-nameless-molecule  probe: a [ molecule ] section without a name that is followed by another molecule.
 
@@ -394,7 +395,7 @@ def run_model(case):
 # ---------------------------------------------------------------------------
 # faults
 
-FAULTS = ['duplicate-atom', 'null-and-weighted-target', 'name-redefined', 'empty-molecule', 'no-name', 'header-unterminated',
+FAULTS = ['null-and-weighted-target', 'duplicate-atom', 'name-redefined', 'empty-molecule', 'no-name', 'header-unterminated',
           'undefined-bead', 'atoms-line-one-token', 'no-molecule-section']
 
 
@@ -555,6 +556,58 @@ def match_doc(spec, part, case, violation):
     return part == 'map-doc-example' and violation.bucket == 'map-doc-example-loads-nothing'
 
 
+# ---------------------------------------------------------------------------
+# part map-directory: a directory tree with a .map and a .mapping file (doc: "the mappings may be organized in subfolders")
+
+def strategy_dir(tier):
+    from pbt import c13_mapping as MP
+    return st.fixed_dictionaries({'map': file_strategy(tier), 'mapping': MP.file_strategy(tier), 'nested': st.booleans()})
+
+
+def run_dir(case):
+    import os
+    import tempfile
+    from pbt import c13_mapping as MP
+    from vermouth.map_input import read_mapping_directory
+    ffs = build_force_fields(case['map'])
+    ffs.update(MP.build_force_fields(case['mapping']))
+    map_text = text_of(serialise(case['map']))
+    mapping_text = MP.text_of(MP.serialise(case['mapping']))
+    with tempfile.TemporaryDirectory(prefix='c13b_') as tmp:
+        sub = os.path.join(tmp, 'sub', 'deeper') if case['nested'] else tmp
+        os.makedirs(sub, exist_ok=True)
+        with open(os.path.join(tmp, 'first.map'), 'w') as fh:
+            fh.write(map_text)
+        with open(os.path.join(sub, 'second.mapping'), 'w') as fh:
+            fh.write(mapping_text)
+        with open(os.path.join(sub, 'README.txt'), 'w') as fh:
+            fh.write('[ molecule ]\nnot a mapping file\n[ atoms ]\n1 A B\n')
+        try:
+            got = read_mapping_directory(tmp, ffs)
+        except Exception as exc:
+            raise Violation('map-directory-rejected', 'well-formed directory rejected: %r (cause %r)\n%s\n----\n%s'
+                            % (exc, exc.__cause__, map_text, mapping_text)) from None
+    exp_map = expected(case['map'])
+    exp_mapping = {}
+    for i, e in enumerate(MP.expected(case['mapping'])):
+        exp_mapping[(e['ff_from'], e['ff_to'], e['names'])] = (i, e)   # a later mapping with the same key replaces the earlier
+    got_keys = {(f, t, n) for f in got for t in got[f] for n in got[f][t]}
+    want = set(exp_map) | set(exp_mapping)
+    if got_keys != want:
+        raise Violation('map-directory-collection', 'collection keys %r, declared %r\n%s\n----\n%s'
+                        % (sorted(got_keys, key=repr), sorted(want, key=repr), map_text, mapping_text))
+    for label, e in exp_map.items():
+        compare_mapping(label, got[label[0]][label[1]][label[2]], e, case['map'], ffs, map_text)
+    for key, (i, e) in exp_mapping.items():
+        MP.compare_one(i, got[key[0]][key[1]][key[2]], e, mapping_text)
+    classes = ['nested' if case['nested'] else 'flat']
+    if exp_map:
+        classes.append('map-entries')
+    if len(exp_mapping) > 1:
+        classes.append('several-mapping-entries')
+    return Outcome(classes, bool(exp_map) and bool(exp_mapping))
+
+
 MATCHERS = {'map-doc-example': match_doc, 'map-nameless-molecule': match_nameless}
 DEFECT_PARTS = ['map-doc-example', 'map-nameless-molecule']
 
@@ -564,14 +617,18 @@ RULE_TEXT = ('map-model: abstract .map files with 1-3 molecules (1-6 atoms, 1-4 
              'order, [ atoms ] split in two) loaded against force fields built from the model (node keys are names or unrelated '
              'integers); non-trivial = at least one mapping is resolvable and some atom has unequal multiplicities or a "!" target. '
              'map-faults: 9 faults at generated positions; non-trivial = the fault is in the second or later molecule. '
+             'map-directory: a generated .map and a generated .mapping file (plus a file with another extension) in a directory, '
+             'optionally nested two levels, read with read_mapping_directory; non-trivial = both files contribute entries. '
              'map-doc-example: the literal .map example of the documentation. map-nameless-molecule: the name line of a molecule that is '
              'not the last one is removed.')
 
 PARTS = [
-    Part('map-model', run_model, strategy=file_strategy, examples={'quick': 1000, 'thorough': 40000},
+    Part('map-model', run_model, strategy=file_strategy, examples={'quick': 1000, 'thorough': 30000},
          floors={'unequal-multiplicity': 0.1, 'null-marker': 0.15, 'several-mappings': 0.2, 'atoms-section-split': 0.1,
                  'atom-absent-from-a-block': 0.1, 'block-lacking-in-a-ff': 0.1, 'default-origin': 0.1, 'extra': 0.1}),
-    Part('map-faults', run_fault, strategy=strategy_fault, examples={'quick': 500, 'thorough': 20000}),
+    Part('map-faults', run_fault, strategy=strategy_fault, examples={'quick': 450, 'thorough': 12000}),
+    Part('map-directory', run_dir, strategy=strategy_dir, examples={'quick': 96, 'thorough': 2000}, floors={'nested': 0.2, 'map-entries': 0.4}),
     Part('map-doc-example', run_doc, enumerate=_enum_doc),
-    Part('map-nameless-molecule', run_fault, strategy=strategy_nameless, examples={'quick': 48, 'thorough': 400}),
+    Part('map-nameless-molecule', run_fault, strategy=strategy_nameless, examples={'quick': 48, 'thorough': 400},
+         shrink_budget={'quick': 40, 'thorough': 200}),
 ]
